@@ -59,7 +59,7 @@ Fixpoint read_lines (ls : list str) (cnt : N) (g : graph) : N * rstatus * graph 
   match ls with
   | [] => (cnt, RNil, g)
   | l :: r =>
-      if too_long l then (cnt, RNil, g)     (* scanner.Err() is not consulted *)
+      if too_long l then (cnt, RErr, g)     (* F22: scanner.Err() = ErrTooLong is returned *)
       else
         let text := trim_space (drop_cr l) in
         match text with
@@ -68,7 +68,7 @@ Fixpoint read_lines (ls : list str) (cnt : N) (g : graph) : N * rstatus * graph 
             match parse_triple O text with
             | Ok t => match add_triple g t with
                       | Ok g' => read_lines r (cnt + 1)%N g'
-                      | _ => ((cnt + 1)%N, RPanic, g)
+                      | _ => (cnt, RPanic, g)
                       end
             | Panic _ => (cnt, RPanic, g)
             | _ => (cnt, RErr, g)
